@@ -354,8 +354,15 @@ class UnionAlternative(SerializationMethod):
 class DiscriminatedAlternative(UnionAlternative):
     alias: str
     key: str
+    # TypedDict alternatives all have the same class, but hold their discriminator
+    typed_dict_field: Optional[str] = None
 
     def serialize(self, obj: Any, path: Union[int, str, None] = None) -> Any:
+        if (
+            self.typed_dict_field is not None
+            and obj.get(self.typed_dict_field) != self.key
+        ):
+            raise ValueError("discriminator mismatch")  # try next alternative
         res = super().serialize(obj, path)
         if isinstance(res, dict) and self.alias not in res:
             res[self.alias] = self.key
